@@ -1,13 +1,13 @@
 package main
 
 import (
-	"regexp"
 	"bytes"
 	"context"
 	"fmt"
 	"os"
 	"os/exec"
 	"path/filepath"
+	"regexp"
 	"sort"
 	"strings"
 	"sync"
@@ -328,6 +328,9 @@ func (o *Obligation) Query(forCvc5 bool) string {
 	}
 	var body strings.Builder
 	for _, f := range g.facts[:o.NFacts] {
+		if sc, ok := g.scoped[f]; ok && !o.inScope(sc) {
+			continue
+		}
 		body.WriteString("(assert ")
 		body.WriteString(f)
 		body.WriteString(")\n")
@@ -600,4 +603,14 @@ func isAllDigits(s string) bool {
 		}
 	}
 	return s != ""
+}
+
+// inScope: the obligation belongs to a clause (or assertion) whose label starts with the scope of a witness assertion.
+func (o *Obligation) inScope(scope string) bool {
+	for _, seg := range strings.Split(strings.TrimPrefix(o.Name, o.Fn+"/"), "/") {
+		if strings.HasPrefix(seg, scope) {
+			return true
+		}
+	}
+	return false
 }
